@@ -212,11 +212,9 @@ class ReadElementStatus(SCSICommand):
                     encode_dict(_ed, cls._import_export_descriptor_bits, _rr)
                 _r += _rr
                 if _esp["pvoltag"]:
-                    _rr = bytearray(36)
-                    _r += _rr
+                    _r += _ed.get("primary_volume_tag", bytearray(36))
                 if _esp["avoltag"]:
-                    _rr = bytearray(36)
-                    _r += _rr
+                    _r += _ed.get("alternate_volume_tag", bytearray(36))
                 _rr = bytearray(4)
                 _r += _rr
 
